@@ -24,6 +24,17 @@
 //! Static, Tree, Hash) and on the new builder; the output is read by the
 //! independent reader and by both codecs and must hold exactly the items
 //! accepted and not rolled back.
+//!
+//! Part 2c (the offset axis): a compression pointer can only address offsets
+//! below 0x4000. One padding record moves a name to EVERY offset of a window
+//! around 0x4000 (wholly below, across it label by label, wholly above), as
+//! an owner or inside RDATA, with none / a part / all of it known from a
+//! question; then follow records whose owners / RDATA names share a suffix
+//! with it at every label depth, in both letter cases. All four established
+//! compressors x {Vec, StreamTarget} and the new builder; thorough: a second
+//! window at the maximal message size of 65535 octets. Every output is read
+//! by the independent reader and by BOTH codecs and must hold exactly the
+//! names pushed.
 use domain::base as ob;
 use domain::base::message_builder::{AdditionalBuilder, AnswerBuilder, AuthorityBuilder, QuestionBuilder, TreeCompressor};
 use domain::base::name::ParsedName;
@@ -1847,6 +1858,22 @@ fn build_names() -> Vec<Vec<u8>> {
     for n in sm_names(SM_LABELS.len()) {
         v.push(n);
     }
+    // names of the offset family (indices OFF0 .., see Part 2c): the root,
+    // an unrelated name, and for every suffix of k = 1..4 labels of
+    // S = aa.strad.exa.tld.: the suffix, the suffix in upper case, x.<suffix>
+    // and X.<SUFFIX>
+    assert_eq!(v.len(), OFF0);
+    v.push(vec![0]);
+    v.push(wire_of(&[b"u"]));
+    for k in 1..=4 {
+        let suf: Vec<&[u8]> = OFF_LABELS[4 - k..].to_vec();
+        let up: Vec<Vec<u8>> = suf.iter().map(|l| l.to_ascii_uppercase()).collect();
+        let upr: Vec<&[u8]> = up.iter().map(|l| &l[..]).collect();
+        v.push(wire_of(&suf));
+        v.push(wire_of(&upr));
+        v.push(wire_of(&[&[&b"x"[..]][..], &suf[..]].concat()));
+        v.push(wire_of(&[&[&b"X"[..]][..], &upr[..]].concat()));
+    }
     v
 }
 
@@ -1933,6 +1960,9 @@ fn name_text(names: &[Vec<u8>], n: usize) -> String {
         }
         out.push('.');
         p += 1 + l;
+    }
+    if out.is_empty() {
+        out.push('.');
     }
     out
 }
@@ -2173,8 +2203,20 @@ fn old_opaque_data(len: u8) -> ORd {
 }
 
 fn run_old(ops: &[Op], names: &[Vec<u8>]) -> BuildOut {
+    run_old_on(TreeCompressor::new(Vec::<u8>::new()), false, ops, names)
+}
+
+/// The established builder over any target. `capped`: the target has a
+/// capacity, a refused push is counted (`truncated_pushes`) and not an error.
+fn run_old_on<T: ob::wire::Composer>(target: T, capped: bool, ops: &[Op], names: &[Vec<u8>]) -> BuildOut {
     let mut out = BuildOut::default();
-    let mut b: OB<TreeCompressor<Vec<u8>>> = OB::Q(ob::MessageBuilder::from_target(TreeCompressor::new(Vec::<u8>::new())).expect("target").question());
+    let mut b: OB<T> = match ob::MessageBuilder::from_target(target) {
+        Ok(mb) => OB::Q(mb.question()),
+        Err(_) => {
+            out.errs.push("established-builder|from_target-refused-although-the-header-fits".into());
+            return out;
+        }
+    };
     let mut counts = [0usize; 4];
     for &op in ops {
         if op == Op::Truncate || op == Op::NewMessage {
@@ -2218,7 +2260,6 @@ fn run_old(ops: &[Op], names: &[Vec<u8>]) -> BuildOut {
             }
             Op::Truncate | Op::NewMessage => unreachable!(),
             Op::Edns(p, e, v, d, o) => {
-                use octseq::OctetsBuilder;
                 let set = &edns_optsets()[o as usize];
                 match &mut b {
                     OB::Ar(x) => x
@@ -2249,6 +2290,8 @@ fn run_old(ops: &[Op], names: &[Vec<u8>]) -> BuildOut {
             counts[s] += 1;
             out.accepted += 1;
             out.want.push(intended(op, names, padlen));
+        } else if capped {
+            out.truncated_pushes += 1;
         } else {
             out.errs.push("established-builder|push-refused-with-unbounded-target".into());
         }
@@ -2299,10 +2342,12 @@ fn run_new_message(ops: &[Op], names: &[Vec<u8>], rev_owner: bool, limit: Option
     let mut out = BuildOut::default();
     let buffer_given = buffer.is_some();
     let pads = ops.iter().any(|o| matches!(o, Op::PadTo(_)));
-    let mut buffer = vec![0u8; buffer.unwrap_or(if pads { 24 * 1024 } else { 12 + 300 * ops.len().max(1) })];
+    // ample = room for the largest pad target of the script and every item after it
+    let max_pad = ops.iter().filter_map(|o| if let Op::PadTo(t) = o { Some(*t) } else { None }).max().unwrap_or(0);
+    let mut buffer = vec![0u8; buffer.unwrap_or(if pads { (24 * 1024).max(max_pad + 300 * ops.len()) } else { 12 + 300 * ops.len().max(1) })];
     let mut b = NewBuilder::new(&mut buffer, compressor, U16::new(0), HeaderFlags::default());
     let mut counts = [0usize; 4];
-    let pad_store = vec![0xEEu8; if pads { 17000 } else { 0 }];
+    let pad_store = vec![0xEEu8; if pads { 17000.max(max_pad) } else { 0 }];
     let opaque_store = [0xDDu8; 255];
     // the names are handed to the builder as NameBuf / RevNameBuf parsed from
     // their (valid, uncompressed) wire form; a refusal is the codec's fault
@@ -3393,6 +3438,347 @@ fn run_fixed_capacity_scripts(ctx: &Ctx, stats: &Stats, fs: &FaultStats, wd: &Wa
     }
 }
 
+// ------------------------------------------------ Part 2c: the offset axis
+//
+// A compression pointer can only address offsets below 0x4000. One opaque
+// record of the right size moves the next name S to EVERY offset of a window
+// around 0x4000, so that S lies wholly below the limit, across it (label by
+// label, octet by octet) and wholly above it; S is given as the owner of a
+// record or as the name in its RDATA, with none / a part / all of it already
+// in the message (question before the padding). Then follow records whose
+// owners / RDATA names share a suffix with S at every label depth (the suffix
+// itself, a new label in front of it, in the same and in the other letter
+// case, the same name twice). Every script runs on the established builder
+// over EVERY compressor (none, Static, Tree, Hash) x target (Vec<u8>,
+// StreamTarget<Vec<u8>>) and on the new builder (owners as RevNameBuf and as
+// &Name). Thorough: a second window in which the message reaches its maximal
+// size of 65535 octets (targets: a buffer of exactly 65535 octets,
+// StreamTarget). Oracle: the independent reader (whose pointers must point
+// strictly backwards), the established codec and the new codec each read
+// exactly the items the builder accepted -- names label-wise, ASCII
+// case-insensitively.
+
+/// Labels of the name S = aa.strad.exa.tld. of the offset family.
+const OFF_LABELS: [&[u8]; 4] = [b"aa", b"strad", b"exa", b"tld"];
+/// Index of the first name of the offset family in the name table.
+const OFF0: usize = SM0 + 155;
+const OFF_ROOT: usize = OFF0;
+/// Follower names are numbered 0 (unrelated u.) and 1 + 4 * (k - 1) + variant
+/// (suffix of k labels of S; variant 0 = the suffix, 1 = in upper case,
+/// 2 = x.<suffix>, 3 = X.<SUFFIX>).
+const OFF_FOLLOWER_NAMES: usize = 17;
+const OFF_S: usize = OFF0 + 1 + 1 + 4 * 3;
+/// Capacity of the targets of the second window: the largest DNS message.
+const OFF_CAP: usize = 65535;
+
+#[derive(Clone, Copy, Debug, PartialEq)]
+enum OTarget {
+    Vec,
+    Stream,
+    /// a buffer of exactly OFF_CAP octets
+    Capped,
+}
+
+#[derive(Clone, Copy, Debug, PartialEq)]
+enum OffBuilder {
+    /// compressor 0 = none, 1 = Static, 2 = Tree, 3 = Hash
+    Old(u8, OTarget),
+    /// owner names given as RevNameBuf / as &Name
+    New(bool),
+}
+
+fn offbuilder_name(b: OffBuilder) -> String {
+    match b {
+        OffBuilder::Old(c, t) => format!("established/{}/{}", OLD_COMPRESSORS[c as usize], ["Vec", "StreamTarget<Vec>", "buffer-of-65535-octets"][t as usize]),
+        OffBuilder::New(true) => "new/owner=RevNameBuf".into(),
+        OffBuilder::New(false) => "new/owner=&Name".into(),
+    }
+}
+
+fn offbuilder_index(b: OffBuilder) -> usize {
+    match b {
+        OffBuilder::Old(c, t) => c as usize * 3 + t as usize,
+        OffBuilder::New(rev) => 12 + rev as usize,
+    }
+}
+
+#[derive(Clone, Debug, PartialEq)]
+struct OffCase {
+    /// second window (message size around 65535)
+    high: bool,
+    /// message offset at which S starts
+    name_at: usize,
+    /// question before the padding: 0 = none, 1 = exa.tld. (a suffix of S), 2 = S
+    prelude: u8,
+    /// S is 0 = the owner of an answer A record, 1 = the target of an answer NS record owned by the root
+    placement: u8,
+    /// (follower name number, kind); kind 0 = owner of an answer A record, 1 = target of an answer NS record owned by the root
+    followers: Vec<(u8, u8)>,
+}
+
+fn off_item(name: usize, kind: u8) -> Op {
+    if kind == 0 {
+        Op::R(1, name, Rd::A)
+    } else {
+        Op::R(1, OFF_ROOT, Rd::Ns(name))
+    }
+}
+
+fn off_ops(c: &OffCase) -> Vec<Op> {
+    let mut ops = Vec::new();
+    match c.prelude {
+        0 => {}
+        1 => ops.push(Op::Q(OFF0 + 1 + 1 + 4)),
+        _ => ops.push(Op::Q(OFF_S)),
+    }
+    // the padding record ends where the record that holds S begins
+    ops.push(Op::PadTo(if c.placement == 0 { c.name_at } else { c.name_at - 11 }));
+    ops.push(off_item(OFF_S, c.placement));
+    for &(n, kind) in &c.followers {
+        ops.push(off_item(OFF0 + 1 + n as usize, kind));
+    }
+    ops
+}
+
+fn off_case_json(builder: OffBuilder, c: &OffCase, names: &[Vec<u8>]) -> Value {
+    json!({
+        "part": "build-offset",
+        "builder": offbuilder_name(builder),
+        "builder_code": match builder { OffBuilder::Old(comp, t) => json!(["old", comp, t as u8]), OffBuilder::New(r) => json!(["new", r]) },
+        "window": if c.high { "0xFFFF" } else { "0x4000" },
+        "name_at": c.name_at,
+        "prelude": c.prelude,
+        "placement": c.placement,
+        "followers": c.followers.iter().map(|(n, k)| json!([n, k])).collect::<Vec<_>>(),
+        "ops_text": off_ops(c).iter().map(|o| op_desc(*o, names)).collect::<Vec<_>>(),
+    })
+}
+
+fn off_case_from_json(v: &Value) -> (OffBuilder, OffCase) {
+    let bc = v["builder_code"].as_array().expect("builder_code");
+    let builder = if bc[0].as_str() == Some("old") {
+        OffBuilder::Old(bc[1].as_u64().unwrap() as u8, [OTarget::Vec, OTarget::Stream, OTarget::Capped][bc[2].as_u64().unwrap() as usize])
+    } else {
+        OffBuilder::New(bc[1].as_bool().unwrap())
+    };
+    let c = OffCase {
+        high: v["window"].as_str() == Some("0xFFFF"),
+        name_at: v["name_at"].as_u64().expect("name_at") as usize,
+        prelude: v["prelude"].as_u64().expect("prelude") as u8,
+        placement: v["placement"].as_u64().expect("placement") as u8,
+        followers: v["followers"].as_array().expect("followers").iter().map(|f| (f[0].as_u64().unwrap() as u8, f[1].as_u64().unwrap() as u8)).collect(),
+    };
+    (builder, c)
+}
+
+fn run_off_builder(builder: OffBuilder, c: &OffCase, ops: &[Op], names: &[Vec<u8>]) -> BuildOut {
+    use domain::base::message_builder::{HashCompressor, StaticCompressor, StreamTarget};
+    match builder {
+        OffBuilder::Old(comp, tgt) => {
+            // in the second window both targets end at 65535 octets: a refused push is theirs to decide
+            let capped = c.high;
+            macro_rules! on {
+                ($t:expr) => {
+                    match comp {
+                        0 => run_old_on($t, capped, ops, names),
+                        1 => run_old_on(StaticCompressor::new($t), capped, ops, names),
+                        2 => run_old_on(TreeCompressor::new($t), capped, ops, names),
+                        _ => run_old_on(HashCompressor::new($t), capped, ops, names),
+                    }
+                };
+            }
+            match tgt {
+                OTarget::Vec => on!(Vec::<u8>::new()),
+                OTarget::Stream => on!(StreamTarget::new_vec()),
+                OTarget::Capped => on!(Bounded { buf: Vec::new(), cap: std::rc::Rc::new(std::cell::Cell::new(OFF_CAP)) }),
+            }
+        }
+        OffBuilder::New(rev_owner) => run_new_in(ops, names, rev_owner, None, if c.high { Some(OFF_CAP) } else { None }),
+    }
+}
+
+#[derive(Default)]
+struct OffStats {
+    cases: AtomicU64,
+    by_builder: [AtomicU64; 14],
+    /// [S ends at or below 0x4000, S lies across 0x4000, S starts at or above 0x4000, second window]
+    by_position: [AtomicU64; 4],
+    accepted: AtomicU64,
+    refused: AtomicU64,
+    pad_skipped: AtomicU64,
+    with_pointers: AtomicU64,
+    pointers: AtomicU64,
+    pointers_at_or_above_0x4000: AtomicU64,
+    max_target: AtomicU64,
+    longer_than_0x4000: AtomicU64,
+    all_equal: AtomicU64,
+}
+
+/// As `read_indep`, returning every compression pointer followed as (position, target).
+fn read_indep_ptrs(msg: &[u8]) -> Result<(Vec<Norm>, Vec<(usize, usize)>), String> {
+    let m = mc::wire::read_message(msg)?;
+    if m.end != msg.len() {
+        return Err(format!("{} trailing octets", msg.len() - m.end));
+    }
+    let mut v = Vec::new();
+    for q in &m.questions {
+        v.push(Norm { sec: 0, name: lc(&mc::wire::to_wire(&q.qname)), t: q.qtype, c: q.qclass, ttl: 0, rdata: vec![] });
+    }
+    let mut ptrs = m.pointers.clone();
+    for (s, sec) in m.sections.iter().enumerate() {
+        for r in sec {
+            let rdata = if r.rtype == 2 || r.rtype == 5 {
+                let (labels, after) = mc::wire::read_name(msg, r.rdata_pos, &mut ptrs)?;
+                if after != r.rdata_pos + r.rdata.len() {
+                    return Err("RDATA length does not match the name in it".into());
+                }
+                lc(&mc::wire::to_wire(&labels))
+            } else {
+                r.rdata.clone()
+            };
+            v.push(Norm { sec: s as u8 + 1, name: lc(&mc::wire::to_wire(&r.owner)), t: r.rtype, c: r.class, ttl: r.ttl, rdata });
+        }
+    }
+    Ok((v, ptrs))
+}
+
+fn run_offset_case(ctx: &Ctx, stats: &Stats, os: &OffStats, wd: &Watchdog, builder: OffBuilder, c: &OffCase, names: &[Vec<u8>]) {
+    stats.eval();
+    os.cases.fetch_add(1, AO::Relaxed);
+    os.by_builder[offbuilder_index(builder)].fetch_add(1, AO::Relaxed);
+    let verbose = ctx.replay.is_some();
+    let bname = offbuilder_name(builder);
+    let bsig = bname.replacen('/', "(", 1) + ")";
+    let case = || off_case_json(builder, c, names);
+    let ops = off_ops(c);
+    // where the (uncompressed) name S lies: the structural cause of a failure
+    let s_len = names[OFF_S].len();
+    let (pi, cause) = if c.high {
+        (3, "message-size-around-0xFFFF")
+    } else if c.name_at + s_len <= 0x4000 {
+        (0, "name-ends-at-or-below-0x4000")
+    } else if c.name_at < 0x4000 {
+        (1, "name-lies-across-0x4000")
+    } else {
+        (2, "name-starts-at-or-above-0x4000")
+    };
+    os.by_position[pi].fetch_add(1, AO::Relaxed);
+    wd.enter(|| json!({"part": "build-offset", "builder": bname, "case": format!("{c:?}")}));
+    let built = guard(|| run_off_builder(builder, c, &ops, names));
+    let out = match built {
+        Ok(o) => o,
+        Err(p) => {
+            wd.leave();
+            ctx.violation(&format!("C19|build-offset|builder={bsig}|panic|{}", panic_class(&p)), &format!("{bname}: {p}"), case());
+            if verbose {
+                println!("{bname}: PANIC {p}");
+            }
+            return;
+        }
+    };
+    let r_old = guard(|| read_old(&out.msg));
+    let r_new = guard(|| read_new(&out.msg));
+    wd.leave();
+    os.accepted.fetch_add(out.accepted as u64, AO::Relaxed);
+    os.refused.fetch_add(out.truncated_pushes as u64, AO::Relaxed);
+    os.pad_skipped.fetch_add(out.pad_skipped as u64, AO::Relaxed);
+    for e in &out.errs {
+        ctx.violation(&format!("C19|build-offset|{e}|cause={cause}"), &format!("{bname}: {e}"), case());
+    }
+    if out.pad_skipped > 0 || out.misplaced > 0 {
+        // the scripts of this family are made so that this cannot happen
+        ctx.violation("C19|build-offset|harness|script-not-applicable", &format!("{bname}: {} pads skipped, {} items misplaced", out.pad_skipped, out.misplaced), case());
+    }
+    if verbose {
+        println!("{bname}: {} octets, {} items accepted, {} refused", out.msg.len(), out.accepted, out.truncated_pushes);
+        let shown: Vec<u8> = out.msg.iter().cloned().filter(|b| *b != 0xEE).collect();
+        println!("  octets without the 0xEE padding: {}", hex(&shown));
+    }
+    if out.msg.len() > 0x4000 {
+        os.longer_than_0x4000.fetch_add(1, AO::Relaxed);
+    }
+    if out.msg.len() > OFF_CAP {
+        ctx.violation(&format!("C19|build-offset|builder={bsig}|message-longer-than-65535-octets"), &format!("{bname}: {} octets", out.msg.len()), case());
+    }
+    let mut all_ok = true;
+    let indep_ok = match read_indep_ptrs(&out.msg) {
+        Ok((got, ptrs)) => {
+            if verbose {
+                println!("  independent reader: {} items, pointers (position, target) {:?}: {}", got.len(), ptrs, first_diff(&out.want, &got));
+            }
+            if !ptrs.is_empty() {
+                os.with_pointers.fetch_add(1, AO::Relaxed);
+                os.pointers.fetch_add(ptrs.len() as u64, AO::Relaxed);
+                os.pointers_at_or_above_0x4000.fetch_add(ptrs.iter().filter(|p| p.0 >= 0x4000).count() as u64, AO::Relaxed);
+                os.max_target.fetch_max(ptrs.iter().map(|p| p.1).max().unwrap_or(0) as u64, AO::Relaxed);
+                stats.nontrivial.fetch_add(1, AO::Relaxed);
+                stats.distinct(fnv(format!("{builder:?}{c:?}").as_bytes()) | 1 << 60);
+            }
+            if got != out.want {
+                ctx.violation(&format!("C19|build-offset|builder={bsig}|output-does-not-read-back-as-pushed(independent-reader)|cause={cause}"), &format!("{bname}: {}", first_diff(&out.want, &got)), case());
+                false
+            } else {
+                true
+            }
+        }
+        Err(e) => {
+            if verbose {
+                println!("  independent reader: ERROR {e}");
+            }
+            ctx.violation(&format!("C19|build-offset|builder={bsig}|output-does-not-read-back-as-pushed(independent-reader)|cause={cause}"), &format!("{bname}: independent reader: {e}"), case());
+            false
+        }
+    };
+    all_ok &= indep_ok;
+    let own = if matches!(builder, OffBuilder::New(_)) { "new" } else { "established" };
+    for (reader, res) in [("established", &r_old), ("new", &r_new)] {
+        let role = if reader == own { "own-codec" } else { "other-codec" };
+        match res {
+            Ok(Ok(got)) => {
+                if verbose {
+                    println!("  {reader} codec's parser ({role}): {} items: {}", got.len(), first_diff(&out.want, got));
+                }
+                if *got != out.want {
+                    all_ok = false;
+                    // a garbled output is reported once, above; here only a reader-side disagreement
+                    if indep_ok {
+                        ctx.violation(&format!("C19|build-offset|builder={bsig}|read-by={reader}({role})|content-differs-although-independent-reader-agrees-with-pushed|cause={cause}"), &format!("{bname}: {}", first_diff(&out.want, got)), case());
+                    }
+                }
+            }
+            Ok(Err(e)) => {
+                all_ok = false;
+                if verbose {
+                    println!("  {reader} codec's parser ({role}): ERROR {e}");
+                }
+                if indep_ok {
+                    ctx.violation(&format!("C19|build-offset|builder={bsig}|read-by={reader}({role})|rejected-although-independent-reader-agrees-with-pushed|cause={cause}"), &format!("{bname}: {e}"), case());
+                }
+            }
+            Err(p) => {
+                all_ok = false;
+                ctx.violation(&format!("C19|build-offset|builder={bsig}|read-by={reader}({role})|panic|{}", panic_class(p)), p, case());
+            }
+        }
+    }
+    if all_ok {
+        os.all_equal.fetch_add(1, AO::Relaxed);
+    }
+}
+
+/// Every sequence of 1..=maxlen items of the alphabet.
+fn off_sequences(alphabet: &[(u8, u8)], maxlen: usize) -> Vec<Vec<(u8, u8)>> {
+    let mut v = Vec::new();
+    for d in 1..=maxlen {
+        for k in 0..pow(alphabet.len(), d) {
+            let mut s = Vec::new();
+            nth_string(alphabet, d, k, &mut s);
+            v.push(s);
+        }
+    }
+    v
+}
+
 // --------------------------------------------------------------------- main
 
 fn offsets_of(items: &[&GItem], len: usize) -> Vec<usize> {
@@ -3455,6 +3841,12 @@ fn main() {
             };
             println!("  capacity for the whole script: {fixed:?}");
             run_fault_case(&ctx, &stats, &fs, &wd, builder, fixed, &steps, &names);
+        } else if case["part"].as_str() == Some("build-offset") {
+            let (builder, c) = off_case_from_json(case);
+            for o in off_ops(&c) {
+                println!("  {}", op_desc(o, &names));
+            }
+            run_offset_case(&ctx, &stats, &OffStats::default(), &wd, builder, &c, &names);
         } else if case["part"].as_str() == Some("build-edns") {
             let e: Vec<usize> = case["edns"].as_array().expect("edns").iter().map(|x| x.as_u64().unwrap() as usize).collect();
             let ops = edns_case_ops(case["pre"].as_bool().unwrap(), [e[0], e[1], e[2], e[3], e[4]], case["post"].as_bool().unwrap());
@@ -3514,6 +3906,73 @@ fn main() {
         let offs = offsets_of(items, m.len());
         run_parse_case(&ctx, &stats, &wd, m, &offs, family);
     };
+
+    // ---------------- Part 2c: the offset axis (runs first; the order of the parts is immaterial)
+    let os = OffStats::default();
+    let s_len = names[OFF_S].len();
+    let low_window: Vec<usize> = (0x4000 - s_len - 2..=0x4000 + 8).collect();
+    let high_window: Vec<usize> = if quick { vec![] } else { (OFF_CAP - 2 * s_len - 14..OFF_CAP).collect() };
+    // follower alphabets: (quick / core) owners of A records: every suffix of S and x.<suffix>;
+    // NS targets: the suffixes of 2 and 3 labels in upper case; (full) every name x both kinds
+    let off_core_alphabet: Vec<(u8, u8)> = (0..4u8).flat_map(|k| [(1 + 4 * k, 0), (1 + 4 * k + 2, 0)]).chain([(1 + 4 + 1, 1), (1 + 8 + 1, 1)]).collect();
+    let off_full_alphabet: Vec<(u8, u8)> = (0..OFF_FOLLOWER_NAMES as u8).flat_map(|n| [(n, 0), (n, 1)]).collect();
+    let off_core_len = if quick { 2 } else { 3 };
+    let mut off_scripts = off_sequences(&off_core_alphabet, off_core_len);
+    if !quick {
+        off_scripts.extend(off_sequences(&off_full_alphabet, 2));
+        off_scripts.sort();
+        off_scripts.dedup();
+    }
+    let off_high_scripts = off_sequences(&off_core_alphabet, 2);
+    let low_builders: Vec<OffBuilder> = (0..4u8).flat_map(|c| [OffBuilder::Old(c, OTarget::Vec), OffBuilder::Old(c, OTarget::Stream)]).chain([OffBuilder::New(true), OffBuilder::New(false)]).collect();
+    let high_builders: Vec<OffBuilder> = (0..4u8).flat_map(|c| [OffBuilder::Old(c, OTarget::Capped), OffBuilder::Old(c, OTarget::Stream)]).chain([OffBuilder::New(true), OffBuilder::New(false)]).collect();
+    let mut off_cases: Vec<OffCase> = Vec::new();
+    for (high, window, scripts) in [(false, &low_window, &off_scripts), (true, &high_window, &off_high_scripts)] {
+        for &name_at in window {
+            for prelude in 0..3u8 {
+                for placement in 0..2u8 {
+                    for f in scripts {
+                        off_cases.push(OffCase { high, name_at, prelude, placement, followers: f.clone() });
+                    }
+                }
+            }
+        }
+    }
+    stats.count_n("gen.offset_scripts", off_cases.len() as u64);
+    off_cases.par_iter().for_each(|c| {
+        for &b in if c.high { &high_builders } else { &low_builders } {
+            run_offset_case(&ctx, &stats, &os, &wd, b, c, &names);
+        }
+    });
+    let off_evals = stats.evals();
+    stats.sample(1, || off_case_json(OffBuilder::Old(3, OTarget::Vec), &OffCase { high: false, name_at: 0x4000 - 9, prelude: 0, placement: 0, followers: vec![(5, 0), (7, 0)] }, &names));
+    let g = |x: &AtomicU64| x.load(AO::Relaxed);
+    let off_cov = json!({
+        "rule": "Part 2c: one case = (script, builder). Script: [question exa.tld. | question S | nothing]; one answer record of an unknown type with root owner whose RDATA length makes the next name start at message offset name_at; the name S = aa.strad.exa.tld. as the owner of an answer A record or as the target of an answer NS record owned by the root; then every sequence of followers of the tier's menus. Builders: established builder over {no compressor, StaticCompressor, TreeCompressor, HashCompressor} x {Vec<u8>, StreamTarget<Vec<u8>>} and the new builder + NameCompressor with owners as RevNameBuf and as &Name (RDATA names as &Name). window 0x4000: name_at = every offset from 0x4000 - |S| - 2 to 0x4000 + 8, a refused push is a violation; window 0xFFFF (thorough): name_at = every offset from 65535 - 2|S| - 14 to 65534 with the targets {buffer of exactly 65535 octets, StreamTarget<Vec<u8>>} / the new builder with a buffer of 65535 octets, whether a push still fits is taken from the builder. Oracle: the independent reader (pointers must point strictly backwards), the established codec and the new codec each read exactly the accepted items (names label-wise and ASCII-case-insensitively, RDATA names decompressed); no message is longer than 65535 octets. non-trivial = the output contains a compression pointer",
+        "name_S": name_text(&names, OFF_S),
+        "window_0x4000": [low_window.first(), low_window.last()],
+        "window_0xFFFF": [high_window.first(), high_window.last()],
+        "follower_menu_core": off_core_alphabet.iter().map(|(n, k)| op_desc(off_item(OFF0 + 1 + *n as usize, *k), &names)).collect::<Vec<_>>(),
+        "follower_menu_full": if quick { json!("thorough only") } else { json!(off_full_alphabet.iter().map(|(n, k)| op_desc(off_item(OFF0 + 1 + *n as usize, *k), &names)).collect::<Vec<_>>()) },
+        "follower_sequences": if quick { format!("every sequence of 1..{off_core_len} followers of the core menu") } else { format!("every sequence of 1..{off_core_len} followers of the core menu and of 1..2 of the full menu; window 0xFFFF: 1..2 of the core menu") },
+        "scripts": off_cases.len(),
+        "cases": g(&os.cases),
+        "cases_by_position_of_S[ends<=0x4000, across 0x4000, starts>=0x4000, window 0xFFFF]": os.by_position.iter().map(g).collect::<Vec<_>>(),
+        "cases_per_builder": low_builders.iter().chain(high_builders.iter().filter(|b| matches!(b, OffBuilder::Old(_, OTarget::Capped)))).map(|b| json!([offbuilder_name(*b), g(&os.by_builder[offbuilder_index(*b)])])).collect::<Vec<_>>(),
+        "pushes_accepted": g(&os.accepted),
+        "pushes_refused(window 0xFFFF)": g(&os.refused),
+        "outputs_longer_than_0x4000": g(&os.longer_than_0x4000),
+        "outputs_with_compression_pointers": g(&os.with_pointers),
+        "pointers_followed": g(&os.pointers),
+        "pointers_located_at_or_above_0x4000": g(&os.pointers_at_or_above_0x4000),
+        "max_pointer_target_seen": g(&os.max_target),
+        "outputs_read_equal_by_independent_reader_and_both_codecs": g(&os.all_equal),
+    });
+    if std::env::var("VERIF_C19_ONLY").ok().as_deref() == Some("offset") {
+        // development aid: the evidence says that the run is partial
+        println!("{}", serde_json::to_string_pretty(&off_cov).unwrap());
+        ctx.finish(json!({"evaluations": stats.evals(), "distinct_nontrivial": stats.nontrivial.load(AO::Relaxed).min(stats.distinct_count()), "rule": "PARTIAL RUN (VERIF_C19_ONLY=offset): Part 2c only", "build_offset_axis": off_cov, "samples": stats.samples(), "exhaustive": false}), &["VERIF_C19_ONLY=offset: only Part 2c ran"]);
+    }
 
     // ---------------- Part 1
     // one-item messages: full menus x all header variants
@@ -3631,7 +4090,7 @@ fn main() {
     }
     big.truncate(65535);
     run_parse_case(&ctx, &stats, &wd, &big, &[12, 14, 65533], "max-size-pointers");
-    let parse_evals = stats.evals();
+    let parse_evals = stats.evals() - off_evals;
 
     // ---------------- Part 2
     let depth = if quick { 4 } else { 5 };
@@ -3777,10 +4236,10 @@ fn main() {
     stats.count_n("gen.long_scripts", long_cases.len() as u64);
     long_cases.par_iter().for_each(|(h, k, t)| run_lru_case(&ctx, &stats, &bs, &wd, &heads[*h], *k, &tails[*t], &names));
 
-    stats.sample(1, || json!({"part": "parse", "family": "one-item", "message": hex(&assemble(0xABCD, &[&first[first.len() / 2]], 0x8400, [0, 1, 0, 0]))}));
-    stats.sample(2, || json!({"part": "parse", "family": "raw", "message": hex(&[&headers[0][..], &[0xC0, 0x0C, 0x00, 0x01, 0x00][..]].concat())}));
+    stats.sample(2, || json!({"part": "parse", "family": "one-item", "message": hex(&assemble(0xABCD, &[&first[first.len() / 2]], 0x8400, [0, 1, 0, 0]))}));
+    stats.sample(3, || json!({"part": "parse", "family": "raw", "message": hex(&[&headers[0][..], &[0xC0, 0x0C, 0x00, 0x01, 0x00][..]].concat())}));
     let sample_ops: Vec<String> = [1usize, 8, 2, 4].iter().map(|i| op_desc(OPS[*i], &names)).collect();
-    stats.sample(3, || json!({"part": "build", "ops": [1, 8, 2, 4], "ops_text": sample_ops}));
+    stats.sample(4, || json!({"part": "build", "ops": [1, 8, 2, 4], "ops_text": sample_ops}));
     let mut hist = serde_json::Map::new();
     let mut outcomes_seen = 0;
     for (u, name) in UV.iter().enumerate() {
@@ -3794,7 +4253,6 @@ fn main() {
         }
         hist.insert(name.to_string(), Value::Object(m));
     }
-    let g = |x: &AtomicU64| x.load(AO::Relaxed);
     let per_builder = {
         let mut m = serde_json::Map::new();
         for b in (0..4u8).flat_map(|c| [FBuilder::Old(c, false), FBuilder::Old(c, true)]).chain([FBuilder::New(false), FBuilder::New(true)]) {
@@ -3806,7 +4264,7 @@ fn main() {
     let cov = json!({
         "evaluations": stats.evals(),
         "distinct_nontrivial": stats.nontrivial.load(AO::Relaxed).min(stats.distinct_count()),
-        "rule": "Part 1: one case = one message (C01 grammar: header variants x 1..2 items (quick) / 1..3 items (thorough) from per-field menus with pointers to every landmark; every truncation of short one-item messages; every raw body over 9 symbols to raw_len after 4 headers; every one of the 65536 header flag words on an empty message) with every unit (compressed name in 4 views + UnparsedName (message and flat), flat name in 3 views, label, question and record in 2 views each plus their compression-less entry points with re-serialisation, character string (&CharStr, CharStrBuf, re-serialisation), name conversions From<&base::Name> and name equality) parsed at every landmark offset (raw: every offset) and the whole message parsed through the iterators / low-level API / MessageParser by both codecs, including the header flag accessors, the EDNS view of OPT records (payload size, extended rcode, version, DO, options) and BoxedRecordData as a second typed representation; non-trivial = both codecs accepted a name containing a compression pointer, a record with non-empty RDATA, or at least one whole-message item; distinct = distinct message octets. Part 2: one case = (operation sequence, builder); non-trivial = the built message contains at least one compression pointer (independent reader); distinct = distinct (sequence, builder)",
+        "rule": "Part 1: one case = one message (C01 grammar: header variants x 1..2 items (quick) / 1..3 items (thorough) from per-field menus with pointers to every landmark; every truncation of short one-item messages; every raw body over 9 symbols to raw_len after 4 headers; every one of the 65536 header flag words on an empty message) with every unit (compressed name in 4 views + UnparsedName (message and flat), flat name in 3 views, label, question and record in 2 views each plus their compression-less entry points with re-serialisation, character string (&CharStr, CharStrBuf, re-serialisation), name conversions From<&base::Name> and name equality) parsed at every landmark offset (raw: every offset) and the whole message parsed through the iterators / low-level API / MessageParser by both codecs, including the header flag accessors, the EDNS view of OPT records (payload size, extended rcode, version, DO, options) and BoxedRecordData as a second typed representation; non-trivial = both codecs accepted a name containing a compression pointer, a record with non-empty RDATA, or at least one whole-message item; distinct = distinct message octets. Part 2: one case = (operation sequence, builder); non-trivial = the built message contains at least one compression pointer (independent reader); distinct = distinct (sequence, builder). Part 2b: see build_under_faults.rule. Part 2c (offset axis around 0x4000 / 0xFFFF on every compressor and target): see build_offset_axis.rule",
         "exhaustive": true,
         "bound": {"parse_items": if quick { 2 } else { 3 }, "raw_len": rawlen, "raw_alphabet": raw, "build_depth": depth, "build_alphabet": OPS.iter().map(|o| op_desc(*o, &names)).collect::<Vec<_>>(), "build_long": format!("head: every sequence of 0..2 of {{alpha., c.alpha., beta., c.beta.}}; then k = 0..{} distinct unrelated one-label names; tail: every sequence of 1..{} of the four; all answer A records", LRU_FILLERS - 1, tail_max), "build_edns": "every combination of payload {0,512,1232,65535} x ext_rcode {0,1,255} x version {0,1,255} x DO x 6 option sets (none, client cookie, full cookie, extended error, unknown code, two options) x {alone, after question+answer} x {last, followed by an additional A record}; new builder with options as &Opt and as a slice of typed EdnsOption, established builder through opt()", "build_truncate_limit": format!("new builder: every sequence of 1..{} of {{question, answer A, answer CNAME, authority NS, additional A, truncate(), finish+new message with the same compressor}} unlimited and under limit_to(L) for every L from 12 to the unlimited size", tl_len), "build_flags": "all 128 combinations of QR AA TC RD RA AD CD x opcode {0,1,2,4,5,15} x rcode {0,1,3,5,15} through both codecs' setters, read back through both codecs' accessors", "build_small_alphabet": format!("every sequence of 2..len names (answer A records owned by the name) over all names of 1..3 one-octet labels over the first k of {:?}; (k, len) = {:?}", SM_LABELS.iter().map(|b| *b as char).collect::<Vec<_>>(), sm_bounds), "build_bit5": format!("every sequence of 1..{} items over {{a<b>.example., www.a<b>.example. : b in {:02x?}}} x {{owner of an A record, target of an NS record owned by example.}}", fold_len, FOLD_BYTES)},
         "parse_cases": parse_evals,
@@ -3852,6 +4310,7 @@ fn main() {
             "outputs_read_equal_by_independent_reader_and_both_codecs": g(&fs.all_equal),
             "per_builder[cases, cases_with_a_refused_push]": per_builder,
         },
+        "build_offset_axis": off_cov,
         "samples": stats.samples(),
         "counters": stats.counters_json(),
     });
@@ -3864,6 +4323,7 @@ fn main() {
             "name comparison in Part 2 is ASCII case-insensitive (compression may reuse a differently-cased earlier occurrence); Part 1 compares case-sensitively",
             "the build is made with overflow checks on: an arithmetic overflow in the subject shows up as a panic",
             "a case that does not finish within 20 s is reported as a hang",
+            "Part 2c: one name family (S = aa.strad.exa.tld. and the names sharing its suffixes); the padding is one opaque record with root owner; in the 0xFFFF window whether a push still fits is taken from the builder",
             "Part 2b: whether a push fits under a push limit / buffer end / capacity is taken from the builder (compression is the builder's choice); only the accepted items are modelled; the target with a movable end is a harness implementation of the public OctetsBuilder/Truncate/Composer traits",
         ],
     );
